@@ -39,7 +39,8 @@ Record field_decl := {
 
 Inductive sel_class :=
 | SelCtx                         (* context.Context *)
-| SelNamed                       (* any other *types.Named *)
+| SelBasic                       (* a *types.Named whose underlying type is a basic type (time.Duration) *)
+| SelNamed                       (* any other *types.Named (struct, map, slice, ...) *)
 | SelUnnamed.                    (* not a named type: ignored *)
 
 Record env := {
@@ -158,10 +159,20 @@ Definition handle_field (name : string) (d : mdata) (f : field_info) : mdata :=
 Definition handle_struct (E : env) (pkg tname name : string) (d : mdata) : mdata :=
   fold_left (handle_field name) (struct_fields E pkg tname) d.
 
-(* func (g *Generator) handleSelectorExpr *)
+(* the scalar branch shared by handleIdent and handleSelectorExpr: a path parameter is left alone,
+   any other scalar is a query parameter *)
+Definition handle_scalar (name : string) (d : mdata) : mdata :=
+  if mem_str name (d_path_params d) then d else with_query d (d_query_params d ++ [EParam name]).
+Definition get_or_delete (verb : string) : bool := String.eqb verb "GET" || String.eqb verb "DELETE".
+
+(* func (g *Generator) handleSelectorExpr: a named scalar of another package travels like a scalar on
+   GET/DELETE; every other named type is bound as the body and looked up as a struct *)
 Definition handle_selector (E : env) (pkg n name : string) (d : mdata) : cres mdata :=
   match assoc2 (e_sel E) pkg n with
   | Some SelCtx => COk (with_ctx d (Some name))
+  | Some SelBasic =>
+      if get_or_delete (d_verb d) then COk (handle_scalar name d)
+      else cbind (set_body name d) (fun d' => COk (handle_struct E pkg n name d'))
   | Some SelNamed => cbind (set_body name d) (fun d' => COk (handle_struct E pkg n name d'))
   | Some SelUnnamed | None => COk d
   end.
@@ -169,12 +180,11 @@ Definition handle_selector (E : env) (pkg n name : string) (d : mdata) : cres md
 (* func (g *Generator) handleIdent *)
 Definition handle_ident (E : env) (n name : string) (d : mdata) : cres mdata :=
   if is_struct_type E n then cbind (set_body name d) (fun d' => COk (handle_struct E EmptyString n name d'))
-  else if mem_str name (d_path_params d) then COk d
-  else COk (with_query d (d_query_params d ++ [EParam name])).
+  else COk (handle_scalar name d).
 
 (* func (g *Generator) handleMapType: a second query map of a GET/DELETE method is refused *)
 Definition handle_map (name : string) (d : mdata) : cres mdata :=
-  if String.eqb (d_verb d) "GET" || String.eqb (d_verb d) "DELETE" then
+  if get_or_delete (d_verb d) then
     match d_dict d with
     | Some _ => CFatal "ambiguous query map binding"
     | None => COk (with_dict d (Some name))
@@ -193,14 +203,19 @@ Fixpoint handle_expr (E : env) (t : texpr) (name : string) (d : mdata) : cres md
 
 Definition is_star (t : texpr) : bool := match t with TStar _ => true | _ => false end.
 
-(* cook.go:125-132: one parameter name *)
+(* cook.go:125-137: one parameter name; an unnamed (rendered as the empty name) or blank parameter is refused *)
+Definition bad_name (name : string) : bool := String.eqb name EmptyString || String.eqb name "_".
 Definition handle_param_name (E : env) (t : texpr) (acc : cres mdata) (name : string) : cres mdata :=
   cbind acc (fun d =>
+    if bad_name name then CFatal "parameters must be named"
+    else
     cbind (handle_expr E t name d) (fun d' =>
       COk (if is_star t then with_is_ptr d' (map_set (d_is_ptr d') name "true") else d'))).
 
+Definition decl_names (p : param_decl) : list string :=
+  match pd_names p with [] => [EmptyString] | ns => ns end.
 Definition handle_param (E : env) (acc : cres mdata) (p : param_decl) : cres mdata :=
-  fold_left (handle_param_name E (pd_type p)) (pd_names p) acc.
+  fold_left (handle_param_name E (pd_type p)) (decl_names p) acc.
 
 Definition oracle := list (string * string) -> list (string * string).
 
@@ -213,6 +228,10 @@ Definition real_path_params (revers : list (string * string)) (pps : list string
 (* cook.go: a POST/PUT/PATCH method without body parameter is refused *)
 Definition body_verb (verb : string) : bool :=
   String.eqb verb "POST" || String.eqb verb "PUT" || String.eqb verb "PATCH".
+(* cook.go: a pointer parameter cannot fill a placeholder (fmt %v would print its address) *)
+Definition check_ptr_path (d : mdata) : cres mdata :=
+  if existsb (fun p => is_true_key (d_is_ptr d) p) (d_path_params d)
+  then CFatal "a path parameter must not be a pointer" else COk d.
 Definition check_body (d : mdata) : cres mdata :=
   if body_verb (d_verb d) then
     match d_body d with
@@ -234,7 +253,7 @@ Definition cook_method (sigma : oracle) (E : env) (m : method_decl) : cres mdata
           let d0 := {| d_verb := verb; d_path := path; d_alias := as_map;
                        d_path_params := real_path_params (revers_map sigma as_map) pps;
                        d_query_params := []; d_is_ptr := []; d_body := None; d_dict := None; d_ctx := None |} in
-          cbind (fold_left (handle_param E) (md_params m) (COk d0)) check_body
+          cbind (cbind (fold_left (handle_param E) (md_params m) (COk d0)) check_ptr_path) check_body
       end
   end.
 
